@@ -95,7 +95,8 @@ ViewClause(o) ==
     ELSE IF o.length # Cardinality(NamesOf(o.list)) THEN "LengthCountsNames"
     ELSE IF o.items # o.keys THEN "ItemAgreesWithKeys"
     ELSE IF o.iter # o.keys THEN "IterationAgreesWithKeys"
-    ELSE IF o.itemPast # "" THEN "ItemPastEndEmpty"
+    ELSE IF o.itemPast # "" \/ o.itemBefore # "" THEN "ItemPastEndEmpty"
+    ELSE IF o.itemsNeg # Reverse(o.keys) THEN "NegativeIndexCountsFromTheEnd"
     ELSE IF \E i \in 1..Len(o.probes) : o.probes[i].has # (Eff(o.list, Norm(o.probes[i].q)) # 0) THEN "Membership"
     ELSE IF \E i \in 1..Len(o.probes) : o.probes[i].value # EffValue(o.list, Norm(o.probes[i].q)) THEN "EffectiveValue"
     ELSE IF \E i \in 1..Len(o.probes) : o.probes[i].prio # EffPrio(o.list, Norm(o.probes[i].q)) THEN "EffectivePriority"
